@@ -351,6 +351,8 @@ struct Frame {
     /// row of the call (for the reported stack)
     call_row: usize,
     assign_result: Option<String>,
+    /// pending GOSUBs at the call: the ones made inside the procedure are forgotten when it is left
+    gosub_mark: usize,
 }
 
 enum Go {
@@ -621,6 +623,10 @@ impl<'a> Ref<'a> {
                         L::ResumeNext => Go::To(self.after_failed(e)),
                         L::ResumeLabel(n) => {
                             // the label lives at the module level: the procedures in progress are left
+                            if self.frames.len() > 1 {
+                                let mark = self.frames[1].gosub_mark;
+                                self.gosub.truncate(mark);
+                            }
                             self.frames.truncate(1);
                             Go::To(self.label(&n))
                         }
@@ -637,13 +643,13 @@ impl<'a> Ref<'a> {
                 if let Some(x) = x {
                     locals.insert("X%".to_owned(), x);
                 }
-                self.frames.push(Frame { ret: pc + 1, locals, call_row: pc + 1, assign_result: None });
+                self.frames.push(Frame { ret: pc + 1, locals, call_row: pc + 1, assign_result: None, gosub_mark: self.gosub.len() });
                 Go::To(self.k.subs[&s] + 1)
             }
             L::AssignFn(f) => {
                 let mut locals = HashMap::new();
                 locals.insert("X%".to_owned(), 1);
-                self.frames.push(Frame { ret: pc + 1, locals, call_row: pc + 1, assign_result: Some(f.clone()) });
+                self.frames.push(Frame { ret: pc + 1, locals, call_row: pc + 1, assign_result: Some(f.clone()), gosub_mark: self.gosub.len() });
                 self.g.insert(format!("result:{}", self.frames.len()), 0);
                 Go::To(self.k.subs[&f] + 1)
             }
@@ -659,6 +665,7 @@ impl<'a> Ref<'a> {
                 }
                 let depth = self.frames.len();
                 let f = self.frames.pop().unwrap();
+                self.gosub.truncate(f.gosub_mark);
                 if f.assign_result.is_some() {
                     let r = *self.g.get(&format!("result:{}", depth)).unwrap_or(&0);
                     self.g.insert("V%".to_owned(), r);
@@ -754,7 +761,7 @@ fn run_ref(p: &Prog, budget: usize) -> Option<RefRun> {
         p,
         k,
         g: HashMap::new(),
-        frames: vec![Frame { ret: 0, locals: HashMap::new(), call_row: 0, assign_result: None }],
+        frames: vec![Frame { ret: 0, locals: HashMap::new(), call_row: 0, assign_result: None, gosub_mark: 0 }],
         gosub: vec![],
         h: H::None,
         err_line: None,
@@ -844,6 +851,9 @@ fn run_real(text: &str, want_trace: bool, budget: u64) -> Result<RealRun, String
         .map(|ip| match ip.element {
             Instruction::PushRegisters => b'u',
             Instruction::PopRegisters => b'o',
+            Instruction::PushRet(_) => b'c',
+            Instruction::PopRet => b'r',
+            Instruction::ResumeLabel(_) => b'l',
             _ => b'w',
         })
         .collect();
@@ -1121,6 +1131,10 @@ fn record(cx: &mut Ctx, job: &Job, done: Done) -> Option<Failure> {
             .map(|sn| match real.frame_op.get(sn.pc) {
                 Some(b'u') => "u",
                 Some(b'o') => "o",
+                Some(b'c') => "c",
+                Some(b'r') => "r",
+                // RESUME label leaves the procedures only when there is an error to resume from
+                Some(b'l') if sn.ea.is_some() => "l",
                 _ => "w",
             })
             .collect();
@@ -2254,6 +2268,169 @@ fn matrix_program(kind: &str, pos: &str, mode: &str) -> Option<Prog> {
     Some(p)
 }
 
+
+// ---- H. errors several calls deep: procedures calling procedures, the error in the innermost
+
+const LEVEL_SHAPES: [&str; 4] = ["plain", "for", "gosub", "for+gosub"];
+
+/// the body of a procedure at call level `k` whose "payload" (the call of the next procedure, or the
+/// failing statement) sits inside a FOR with a limit and step of its own and / or inside a GOSUB routine
+fn level_body(k: usize, shape: &str, payload: Vec<L>) -> Vec<L> {
+    let kv = format!("K{}%", k);
+    let w = format!("W{}", k);
+    let e = format!("E{}", k);
+    let k10 = 10 * k as i32;
+    let mut v = vec![L::Tok(format!("p{}", k))];
+    let for_open = L::For { var: kv.clone(), from: k10, to: Ex::K(3 * k10), step: Some(k10) };
+    match shape {
+        "plain" => {
+            v.extend(payload);
+            v.push(L::Tok(format!("p{}z", k)));
+        }
+        "for" => {
+            v.push(for_open);
+            v.extend(payload);
+            v.push(L::PrintVars(format!("p{}k", k), vec![kv]));
+            v.push(L::Next);
+        }
+        "gosub" | "for+gosub" => {
+            if shape == "for+gosub" {
+                v.push(for_open);
+            }
+            v.push(L::Gosub(w.clone()));
+            if shape == "for+gosub" {
+                v.push(L::PrintVars(format!("p{}k", k), vec![kv]));
+                v.push(L::Next);
+            }
+            v.push(L::Tok(format!("p{}z", k)));
+            v.push(L::Goto(e.clone()));
+            v.push(L::Label(w));
+            v.extend(payload);
+            v.push(L::Tok(format!("w{}z", k)));
+            v.push(L::Return(None));
+            v.push(L::Label(e));
+        }
+        _ => unreachable!(),
+    }
+    v
+}
+
+/// `shapes[k-1]` = the shape of procedure `P<k>`; the last one holds the failing statement
+fn deep_call(shapes: &[&str], ctx: &str, kind: &str, mode: &str) -> Prog {
+    let depth = shapes.len();
+    let lr = mode == "resume-label";
+    let mut p = Prog::new();
+    p.push(L::Set(s("M%"), 3));
+    p.push(L::OnErrGoto(s("HH")));
+    let mut call: Vec<L> = vec![L::Call(s("P1"), None)];
+    if lr {
+        call.push(L::Label(s("LR")));
+    }
+    match ctx {
+        "top" => {
+            p.push(tok("m"));
+            p.extend(call);
+            p.push(tok("back"));
+        }
+        "in-for" => {
+            p.push(L::For { var: s("I1%"), from: 1, to: Ex::K(2), step: None });
+            p.push(L::PrintVars(s("m"), vec![s("I1%")]));
+            p.extend(call);
+            p.push(L::PrintVars(s("back"), vec![s("I1%")]));
+            p.push(L::Next);
+            p.push(L::PrintVars(s("after"), vec![s("I1%")]));
+        }
+        "in-gosub" => {
+            p.extend(vec![L::Gosub(s("MG")), tok("mg-returned"), L::Goto(s("MX")), L::Label(s("MG")), tok("mg")]);
+            p.extend(call);
+            p.extend(vec![tok("back"), L::Return(None), L::Label(s("MX"))]);
+        }
+        _ => unreachable!(),
+    }
+    // afterwards the module level must be as if the procedures had never been entered
+    p.push(L::PrintVars(s("v"), vec![s("D%"), s("V%"), s("N%"), s("W%"), s("M%")]));
+    p.push(L::For { var: s("I3%"), from: 1, to: Ex::K(3), step: None });
+    p.push(L::PrintVars(s("y"), vec![s("I3%")]));
+    p.push(L::Next);
+    p.push(L::For { var: s("I2%"), from: 9, to: Ex::K(3), step: Some(-3) });
+    p.push(L::PrintVars(s("x"), vec![s("I2%")]));
+    p.push(L::Next);
+    p.push(L::PrintErr(s("e")));
+    p.push(L::OnErrZero);
+    p.push(tok("now-return"));
+    p.push(L::Return(None)); // nothing is pending: error 3, here
+    p.push(tok("not-reached"));
+    p.push(L::Label(s("GIVEUP")));
+    p.push(L::End);
+    p.push(L::Label(s("HH")));
+    p.push(L::Add(s("N%"), 1));
+    p.push(L::If(Cond::Ge(s("N%"), Ex::K(40))));
+    p.push(L::Goto(s("GIVEUP")));
+    p.push(L::EndIf);
+    p.push(L::PrintErr(s("h")));
+    if mode == "resume" {
+        p.push(L::Set(s("D%"), 1));
+    }
+    p.push(L::Set(s("W%"), 9));
+    p.push(match mode {
+        "resume" => L::Resume,
+        "resume-label" => L::ResumeLabel(s("LR")),
+        _ => L::ResumeNext,
+    });
+    for k in 1..=depth {
+        let payload = if k < depth {
+            vec![L::Call(format!("P{}", k + 1), None)]
+        } else {
+            let mut f = vec![L::Set(s("L%"), 5)];
+            f.extend(failing(kind));
+            f.push(L::PrintVars(s("l"), vec![s("L%")]));
+            f
+        };
+        p.push(L::Sub(format!("P{}", k), false));
+        p.extend(level_body(k, shapes[k - 1], payload));
+        p.push(L::EndSub);
+    }
+    if kind == "sub-arg" {
+        p.extend(vec![L::Sub(s("Q"), true), L::PrintVars(s("q"), vec![s("X%")]), L::EndSub]);
+    }
+    p
+}
+
+fn deep_call_family(cx: &mut Ctx, rng: &mut Rng, thorough: bool) {
+    let mut shape_lists: Vec<Vec<&str>> = vec![];
+    for a in LEVEL_SHAPES {
+        shape_lists.push(vec![a]);
+        for b in LEVEL_SHAPES {
+            shape_lists.push(vec![a, b]);
+            for c in LEVEL_SHAPES {
+                shape_lists.push(vec![a, b, c]);
+            }
+        }
+    }
+    for shapes in &shape_lists {
+        for ctx in ["top", "in-for", "in-gosub"] {
+            for kind in ["asg-div", "array", "sub-arg"] {
+                for mode in ["resume-label", "resume-next", "resume"] {
+                    // quick: call depth 1 and 2 in full for the plain failing assignment; depth 3 and the other
+                    // failing statements sampled
+                    let keep = thorough
+                        || (shapes.len() <= 2 && kind == "asg-div")
+                        || (shapes.len() <= 2 && rng.below(6) == 0)
+                        || (shapes.len() == 3 && rng.below(if kind == "asg-div" { 5 } else { 30 }) == 0);
+                    if !keep {
+                        continue;
+                    }
+                    let p = deep_call(shapes, ctx, kind, mode);
+                    let sig = format!("deep-call:depth{}:{}:{}:{}:{}", shapes.len(), shapes.join(">"), ctx, kind, mode);
+                    cx.counter += 1;
+                    let trace = cx.model_every > 0;
+                    cx.jobs.push(Job { p, sig, class: format!("deep-call.depth{}.{}", shapes.len(), mode), trace, matrix_key: None, big: true, frames: false });
+                }
+            }
+        }
+    }
+}
+
 // ---- E. orders of enabling / disabling handlers
 
 fn handler_orders(cx: &mut Ctx) {
@@ -2423,7 +2600,7 @@ fn main() {
         "C05",
         "token programs (one statement per line, a token printed per statement): exhaustive label/jump/handler skeletons, \
          GOSUB nesting histories, GOTO out of every loop kind under every enclosing loop kind, GOTO target layouts (the label at any statement position of any enclosing or sibling block: loop bodies, THEN / ELSEIF / ELSE, CASE / CASE ELSE, SUB body, top level), the ON ERROR matrix \
-         (failing statement kind x position in a block x resume mode), all orders of enabling/disabling handlers; each is run on \
+         (failing statement kind x position in a block x resume mode), errors 1..3 calls deep (the outer procedures inside FOR loops / GOSUB routines; afterwards module-level loops and a RETURN that must raise error 3), all orders of enabling/disabling handlers; each is run on \
          the real interpreter and on the line-based reference interpreter (ImplVsProperty) and the real VM's control state before \
          every instruction is compared with the Lean control machine driven by the observed decisions (ModelVsImpl). \
          distinct = distinct program texts accepted by the front end.",
@@ -2557,6 +2734,13 @@ fn main() {
     cx.rep.exhaustive_parts.push(format!("ON ERROR matrix: {} failing-statement kinds x {} positions x {} resume modes (combinations that cannot terminate excluded)", KINDS.len(), POSITIONS.len(), MODES.len()));
 
     eprintln!("matrix done {:?}", t0.elapsed());
+    // H. errors several calls deep
+    if want("H") {
+        deep_call_family(&mut cx, &mut rng, thorough);
+        cx.rep.exhaustive_parts.push("errors 1..3 calls deep (procedures calling procedures, the failing statement in the innermost): every procedure plain / inside a FOR with its own limit and step / inside a GOSUB routine / both x the outermost call at the top level / inside a module-level FOR / inside a module-level GOSUB routine x RESUME label / RESUME NEXT / RESUME; afterwards module-level loops print their counters and a RETURN with nothing pending must raise error 3 (quick: depth 1 and 2 in full, depth 3 sampled)".into());
+        run_jobs(&mut cx);
+    }
+    eprintln!("deep-call done {:?}", t0.elapsed());
     // E. handler orders
     if want("E") {
         handler_orders(&mut cx);
